@@ -244,6 +244,9 @@ def trailing : List Param → Bool
   | [] => true
   | p :: ps => if p.vis && p.hasDefault then ps.all (fun q => q.vis && q.hasDefault) else trailing ps
 
+/-- number of Python arguments that have a default. -/
+def countDefaults (ps : List Param) : Nat := ps.countP (fun p => p.vis && p.hasDefault)
+
 /-- some supplied value is rejected by its parameter's unit. -/
 def badSupplied : List Param → List Val → List (Nat × Val) → Bool
   | [], _, _ => false
